@@ -4,6 +4,7 @@
 package c04
 
 import (
+	"sync"
 	"fmt"
 	"net/url"
 	"os"
@@ -38,6 +39,7 @@ type Case struct {
 	Acct, Domain                                       string // handle
 	Field                                              string // planted: which field of the served document carries the URL
 	ExpectTarget                                       string `json:"expect_target,omitempty"` // known by construction for clean URLs ("" = unknown)
+	N                                                  int    `json:"n,omitempty"`             // handles: how many lookups run at once (n+2)
 	Status                                             int    `json:"status,omitempty"`        // what the servers answer to everything that is not planted (default 200)
 }
 
@@ -124,6 +126,23 @@ func check(c Case) vrep.Result {
 		sim.Set(0, "*", &vsim.Route{Raw: "HTTP/1.1 200 OK\r\nContent-Type: application/jrd+json\r\n\r\n" +
 			`{"subject":"acct:x","links":[{"rel":"self","type":"application/activity+json","href":"https://%H1%` + prefix + `/actor"}]}`})
 		pub.FetchUserInput(text)
+	case "handles":
+		// several handles looked up at the same time, as a feed does: each lookup is its own request to its own host
+		answer := &vsim.Route{Raw: "HTTP/1.1 200 OK\r\nContent-Type: application/jrd+json\r\n\r\n" +
+			`{"subject":"acct:x","links":[{"rel":"self","type":"application/activity+json","href":"https://%H1%` + prefix + `/actor"}]}`, Fault: &vsim.Fault{LatencyMs: 5}}
+		for h := 0; h < sim.Hosts(); h++ {
+			sim.Set(h, "*", answer)
+		}
+		var wg sync.WaitGroup
+		for i := 0; i < c.N+2; i++ {
+			wg.Add(1)
+			go func(i int) {
+				defer wg.Done()
+				pub.FetchUserInput(fmt.Sprintf("@user%d@%s", i, sim.Authority(i%sim.Hosts())))
+			}(i)
+		}
+		wg.Wait()
+		hostile = true
 	case "planted":
 		planted := expand(c.urlText())
 		hostile = isHostile(planted)
@@ -270,9 +289,11 @@ var domains = []string{"%H0%", "%H0%", "%H0%", "%H0%", "%H0%", "%H0%", "%H0%", "
 	"%H0% ", " %H0%", "%H0%:", "", "%H0%@%H1%", "%H0%\\@x", "%H0%%0d%0aX-A:%20b", "LOCALHOST%PORT0%", "%HW16%", "%HW32%", "%H0%\nX: y", "127.0.0.1\r\nX: y%PORT0%"}
 
 func gen(t *rapid.T) Case {
-	c := Case{Kind: rapid.SampledFrom([]string{"url", "url", "handle", "planted", "planted", "location"}).Draw(t, "kind")}
+	c := Case{Kind: rapid.SampledFrom([]string{"url", "url", "handle", "planted", "planted", "location", "url", "url", "handle", "planted", "planted", "location", "handles"}).Draw(t, "kind")}
 	c.Status = rapid.SampledFrom([]int{200, 200, 200, 403, 401, 404, 429, 500, 407}).Draw(t, "status")
 	switch c.Kind {
+	case "handles":
+		c.N = rapid.IntRange(0, 6).Draw(t, "nhandles") // how many (n+2)
 	case "handle":
 		c.Acct = rapid.SampledFrom(accts).Draw(t, "acct")
 		c.Domain = rapid.SampledFrom(domains).Draw(t, "domain")
